@@ -117,7 +117,8 @@ fn main() {
             let max_n = args.num("max-n", 3) as usize;
             let max_e = args.num("max-e", 1) as usize;
             let random = args.num("random", 1000) / nshards / 4 + 1;
-            for_flavours!("all", F, { mutate::run::<F>(&mut rep, max_n, max_e, random, shard, nshards, &mut rng) });
+            let cs = args.num("case-stride", 1);
+            for_flavours!("all", F, { mutate::run::<F>(&mut rep, max_n, max_e, random, shard, nshards, &mut rng, cs) });
         }
         "dropin" => {
             let programs = args.num("programs", 200) / nshards + 1;
